@@ -134,8 +134,22 @@ Proof.
   split; [reflexivity|]. now apply var_membership_only_sound.
 Qed.
 
-Lemma sorts_sound ss : forallb sort_ok ss = true -> forall s, In s ss -> so_has_key s = true.
-Proof. intros H s Hin. rewrite forallb_forall in H. exact (H s Hin). Qed.
+Lemma sorts_sound ss :
+  forallb sort_ok ss = true -> forall s, In s ss -> so_has_key s = true \/ so_elems s = ElemsNumeric.
+Proof.
+  intros H s Hin. rewrite forallb_forall in H. specialize (H s Hin). unfold sort_ok in H.
+  apply orb_true_iff in H. destruct H as [H|H]; [now left|right]. destruct (so_elems s); [reflexivity|discriminate].
+Qed.
+
+Lemma sorts_refuted ss :
+  forallb sort_ok ss = false -> exists s, In s ss /\ so_has_key s = false /\ so_elems s = ElemsUnknown.
+Proof.
+  induction ss as [|s t IH]; cbn [forallb]; [discriminate|].
+  destruct (sort_ok s) eqn:E; cbn [andb]; intro H.
+  - destruct (IH H) as (x & Hx & Hc). exists x. split; [now right|exact Hc].
+  - exists s. split; [now left|]. unfold sort_ok in E. apply orb_false_iff in E. destruct E as [E1 E2].
+    split; [exact E1|]. destruct (so_elems s); [discriminate|reflexivity].
+Qed.
 
 Lemma uninit_sound xs :
   forallb uninit_ok xs = true -> forall s, In s xs -> s_file s = "tensor.py" /\ s_func s = "empty".
